@@ -44,10 +44,11 @@ func Catalogue(tier string) []*FSystem {
 		{name: "ctl-d2-gated", Orig: "standby", Delay: 2, FbDelay: 2, Grace: 0, Failback: true, FailTh: 1, RecTh: 1, Gated: true, Advs: []int{1, 2}, MaxDepth: 0},
 		{name: "ctl-active", Orig: "active", Delay: 2, FbDelay: 2, Grace: 0, Failback: true, FailTh: 1, RecTh: 1, Advs: []int{1, 2}},
 	}
+	l = append(l, &FSystem{name: "ctl-d3-gated-grace1", Orig: "standby", Delay: 3, FbDelay: 2, Grace: 1, Failback: true, FailTh: 1, RecTh: 1, Gated: true, Advs: []int{1, 3}})
 	if tier == "thorough" {
 		l = append(l,
 			&FSystem{name: "ctl-d4-grace2", Orig: "standby", Delay: 4, FbDelay: 3, Grace: 2, Failback: true, FailTh: 1, RecTh: 1, Advs: []int{1, 2, 4}},
-			&FSystem{name: "ctl-d3-gated-grace1", Orig: "standby", Delay: 3, FbDelay: 2, Grace: 1, Failback: true, FailTh: 1, RecTh: 1, Gated: true, Advs: []int{1, 3}, MaxDepth: 8},
+			&FSystem{name: "ctl-d3-gated-th2", Orig: "standby", Delay: 3, FbDelay: 3, Grace: 0, Failback: true, FailTh: 2, RecTh: 2, Gated: true, Advs: []int{1, 2, 3}},
 		)
 	}
 	return l
